@@ -85,6 +85,7 @@ struct SocketImpl
 
   virtual void DriverQuery(short &events);
   virtual void DriverPending();
+  virtual bool DriverReceivePending() const;
 };
 
 // assumes a readable socket
